@@ -10,7 +10,8 @@
 EXTENDS Naturals, Sequences, FiniteSets, TLC
 
 SeqToSet(s) == {s[i] : i \in 1..Len(s)}
-Own(chain, i) == [k \in SeqToSet(chain[i].own) |-> <<k, i>>]
+\* the value written for own key k at level i carries <<k, i>>; an own key listed in chain[i].nul holds None: <<k, 0>>
+Own(chain, i) == [k \in SeqToSet(chain[i].own) |-> <<k, IF k \in SeqToSet(chain[i].nul) THEN 0 ELSE i>>]
 Overlay(parent, own) == [k \in DOMAIN parent \cup DOMAIN own |-> IF k \in DOMAIN own THEN own[k] ELSE parent[k]]
 RECURSIVE Stored(_, _)
 Stored(chain, i) == IF i = 1 THEN Own(chain, 1) ELSE Overlay(Stored(chain, i - 1), Own(chain, i))
